@@ -106,6 +106,11 @@ def run_block(c, tag, exp, cases, results, tol, shard=200, sizes_term=None):
     for i, (cs, res) in enumerate(zip(cases, results)):
         if "setup_err" in res:
             continue
+        # results outside the comfortable range of a double (atto x (tiny unit)^-3 ...): the implementation's intermediate products lose
+        # precision to subnormals / overflow, which is the number format and not the conversion; counted, not compared
+        if "m" in res and len(res["m"]) == 3 and frac(res["m"]) != 0 and not (Fraction(1, 10**200) < abs(frac(res["m"])) < Fraction(10**200)):
+            c.cov["outside_float_range"] = c.cov.get("outside_float_range", 0) + 1
+            continue
         try:
             terms.append(ccase(cs["a"]["m"], res["source"], res["target"], res, cs.get("ref", 0))); keep.append(i)
         except OutOfModel:
